@@ -82,6 +82,24 @@ def judge(ctx, kind, graph_seed, knobs, audio_mode="none"):
     n, shared = shape(obj)
     path = os.path.join(AC.tmpdir(), f"c02-{os.getpid()}.json")
     nonempty = 0
+    if graph_seed % 2 == 1:
+        # a first attempt with too narrow an audio directory fails half way through the collection (some recording lies
+        # outside it); the caller corrects the directory and saves the same objects again: that document is judged
+        try:
+            from rv.core.walk import walk as _walk
+
+            dirs = sorted({str(Path(i.path).parent) for _, i in _walk(obj) if type(i).__name__ == "Recording"})
+            if len(dirs) >= 2:
+                for d_ in dirs[:6]:      # each narrow choice fails at another point of the traversal
+                    try:
+                        IO.save(obj, path + ".failed.json", audio_dir=d_)
+                    except Exception:
+                        ctx.mon("save_retried_after_failure")
+                    finally:
+                        if os.path.exists(path + ".failed.json"):
+                            os.remove(path + ".failed.json")
+        except Exception:
+            pass
     try:
         IO.save(obj, path, audio_dir=audio_dir)
         d = json.loads(Path(path).read_text()).get("data", {})
